@@ -93,10 +93,12 @@ def nesting(shape):
 
 def chain(n, link, bottom):
     """n nested containers; bottom: 'scalar' | 'empty' (innermost container empty)"""
-    cur = 7 if bottom == "scalar" else None
+    leaves = {"scalar": 7, "str": "leaf", "null": None, "true": True, "float": 1.5}
+    cur = leaves.get(bottom)
+    has_leaf = bottom in leaves
     for i in range(n):
         as_dict = link == "dict" or (link == "alt" and i % 2 == 0)
-        inner = [] if cur is None else [cur]
+        inner = [cur] if (has_leaf or i > 0) else []
         cur = {"a": inner[0]} if (as_dict and inner) else ({} if as_dict else inner)
     return cur
 
@@ -224,6 +226,8 @@ def make_doc(spec):
         deep = chain(spec["n"], spec["link"], spec["bottom"])
         if spec["where"] == "alone":
             return deep, spec["n"]
+        if spec["where"] == "wrapped":
+            return [deep], spec["n"] + 1
         return positioned(deep, spec["where"]), spec["n"] + 1
     if k == "cycle":
         return cyclic(spec["name"]), None
@@ -366,6 +370,7 @@ def shards(tier):
             out.append({"part": "verydeep", "limit": limit, "n": n, "tier": tier})
     out.append({"part": "dag", "tier": tier})
     out.append({"part": "instance", "tier": tier})
+    out.append({"part": "infilter", "tier": tier})
     for name in CYCLES + BRANCHING:
         for limit in ((1, 2, 3, 4) if name in BRANCHING else (1, 2, 3, 4, 5, 100)):
             out.append({"part": "cycle", "name": name, "limit": limit, "tier": tier})
@@ -403,6 +408,21 @@ def run_shard(desc):
                                 continue
                             for nd in (False, True):
                                 do(spec, limit, nd, "$..*", abs(nest - limit) <= 1)
+        elif desc["part"] == "infilter":
+            # a descendant segment inside a filter query / function argument: the descent starts at the
+            # child under test, so the nesting it sees is that of the child; beyond the limit the error is
+            # still JSONPathRecursionError
+            for limit in (1, 2, 3, 100):
+                for n in (limit - 1, limit, limit + 1, limit + 2):
+                    if n < 1:
+                        continue
+                    for link in ("list", "dict"):
+                        for bottom in ("scalar", "str"):
+                            spec = {"kind": "chain", "n": n, "link": link, "bottom": bottom, "where": "wrapped"}
+                            for nd in (False, True):
+                                for q in ("$[?@..a]", "$[?count(@..*) >= 0]", "$[?value(@..zz) == 1 || length(value(@..[0])) > 9]",
+                                          "$[?@[?@..a] || !@..zz]"):
+                                    do_sub(sh, spec, limit, nd, q, full_upto)
         elif desc["part"] == "instance":
             # limit and mode assigned on a plain environment instance AFTER compiling the query
             for limit in (1, 2, 3, 5, 150):
@@ -445,7 +465,7 @@ def run_shard(desc):
                 if n < 1:
                     continue
                 for link in (desc["link"],):
-                    for bottom in ("scalar", "empty"):
+                    for bottom in ("scalar", "empty", "str", "null"):
                         for where in ("alone", "first", "middle", "last"):
                             spec = {"kind": "chain", "n": n, "link": link, "bottom": bottom, "where": where}
                             for nd in (False, True):
